@@ -42,6 +42,13 @@ fn plaintext(r: &mut Rng, max: usize) -> Vec<u8> {
     }
 }
 
+/// `len` bytes with `bits` random low bits each
+fn noisy_plain(seed: u64, bits: u32, len: usize) -> Vec<u8> {
+    let mut r = Rng::new(seed);
+    let mask = ((1u32 << bits) - 1) as u8;
+    (0..len).map(|_| r.u8() & mask).collect()
+}
+
 fn regular_plain(byte: u8, period: usize, len: usize) -> Vec<u8> {
     (0..len).map(|i| byte.wrapping_add((i % period.max(1)) as u8)).collect()
 }
@@ -348,6 +355,17 @@ pub fn run(cfg: &RunCfg) -> (PropMeta, ShardOut, Map<String, Value>) {
                     out.finding(Finding { signature: format!("C09/{}/megabyte-regular", sig), what, witness: json!({"kind":"compress-regular","byte":byte,"period":period,"len":len}) });
                 }
             }
+            if i == 1 || i == 2 {
+                // large and only mildly compressible content (image samples, font programs): the deflated form is far
+                // larger than any internal buffer of the encoder. The bytes are a pure function of (seed, bits, len).
+                let (nseed, bits, len) = (r.next_u64(), 4 + r.below(4) as u32, 100_000 + r.usize_below(400_000));
+                let p = noisy_plain(nseed, bits, len);
+                out.evaluations += 1;
+                out.count("compress_roundtrips_large_noisy");
+                if let Some((sig, what)) = check_compress(&p) {
+                    out.finding(Finding { signature: format!("C09/{}/large-noisy", sig), what, witness: json!({"kind":"compress-noisy","seed":nseed,"bits":bits,"len":len}) });
+                }
+            }
             if i % 4 == 0 {
                 let p = plaintext(&mut r, 3000);
                 out.evaluations += 1;
@@ -463,7 +481,7 @@ pub fn run(cfg: &RunCfg) -> (PropMeta, ShardOut, Map<String, Value>) {
     });
     let meta = PropMeta {
         level: "exploration",
-        rule: "random plaintexts encoded by the reference encoders through every chain of 1..3 filters over {FlateDecode (stored/fixed/mixed blocks), LZWDecode (EarlyChange 0/1), ASCII85Decode (z, white-space)} with PNG predictors 10..15 (row filters none/sub/up/avg/paeth/mixed) x Colors 1..12 x BitsPerComponent {8,16} x Columns 1..64, DecodeParms as dictionary or as array parallel to Filter with null holes; lopdf's decompressed_content/get_plain_content/decompress must return the plaintext and maintain Length; compress/decompress/set_content/set_plain_content (each starting from a Length entry that is correct, stale, a reference or absent) and Document::compress/decompress round trips, also on 1-4 MB of constant or short-period content (maximum deflate ratio) and on already filtered streams. Exhaustive: 2^24 Paeth triples, all Sub/Up/Avg byte pairs through png::decode_row; all 1- and 2-byte final ASCII85 groups (3-byte: every 37th in quick, all 2^24 in thorough); z groups and the 0xFFFFFFFF group. distinct = distinct (dictionary, encoded bytes).".into(),
+        rule: "random plaintexts encoded by the reference encoders through every chain of 1..3 filters over {FlateDecode (stored/fixed/mixed blocks), LZWDecode (EarlyChange 0/1), ASCII85Decode (z, white-space)} with PNG predictors 10..15 (row filters none/sub/up/avg/paeth/mixed) x Colors 1..12 x BitsPerComponent {8,16} x Columns 1..64, DecodeParms as dictionary or as array parallel to Filter with null holes; lopdf's decompressed_content/get_plain_content/decompress must return the plaintext and maintain Length; compress/decompress/set_content/set_plain_content (each starting from a Length entry that is correct, stale, a reference or absent) and Document::compress/decompress round trips, also on 1-4 MB of constant or short-period content (maximum deflate ratio), on 100-500 KB of noisy content (4..7 random bits per byte) and on already filtered streams. Exhaustive: 2^24 Paeth triples, all Sub/Up/Avg byte pairs through png::decode_row; all 1- and 2-byte final ASCII85 groups (3-byte: every 37th in quick, all 2^24 in thorough); z groups and the 0xFFFFFFFF group. distinct = distinct (dictionary, encoded bytes).".into(),
         assumptions: vec!["reference encoders/decoders were cross-checked against zlib and base64.a85 during development and self-test at setup (ISO LZW example, zlib streams from real zlib)".into()],
         exhaustive: false,
         min_distinct: 1000,
@@ -483,6 +501,10 @@ pub fn replay(w: &Value) -> Vec<Finding> {
             };
             let c = FCase { plain: unhex(w["plain"].as_str().unwrap_or("")), dict, encoded: unhex(w["encoded"].as_str().unwrap_or("")), features: vec![] };
             check_case(&c).map(|(s, what)| Finding { signature: format!("C09/{}", s), what, witness: w.clone() }).into_iter().collect()
+        }
+        Some("compress-noisy") => {
+            let p = noisy_plain(w["seed"].as_u64().unwrap_or(1), w["bits"].as_u64().unwrap_or(6) as u32, w["len"].as_u64().unwrap_or(100_000) as usize);
+            check_compress(&p).map(|(s, what)| Finding { signature: format!("C09/{}/large-noisy", s), what, witness: w.clone() }).into_iter().collect()
         }
         Some("compress-regular") => {
             let g = |kk: &str| w[kk].as_u64().unwrap_or(1) as usize;
